@@ -99,6 +99,11 @@ def app_abstract(I, fr, op, v):
     arg = v if isinstance(v, V) else VConst(v)
     t = VApp(op.opsym, (arg,), fld)
     if is_field_obj(I, rng):
+        dom = I._getattr(op, 'domain', fr)
+        if op.opsym.linear and not is_field_obj(I, dom):
+            # linear functional in Riesz form: f(v) = <v, f*(1)>  (what Adj(f, f*) means for a functional)
+            rep = VApp(adjoint_sym(op.opsym), (VConst(1.0),), field_kind_of(I, fr, dom))
+            return inner(I, fr, dom, arg, rep)
         return fr.st.lower(t)          # scalar value: the (index independent) lowered atom
     return t
 
@@ -212,3 +217,178 @@ def make_elem_by_builder(fr, space, cont):
     if b is None:
         raise Unsupported('space without builder')
     return b.element(cont=cont)
+
+
+# --------------------------------------------------------------------------
+# semantic functions of the default operators (documented behaviour; proved from _call in C03/C10 dop units)
+
+DOPS = 'odl.operator.default_ops:'
+
+
+def _vec(v):
+    return value_of(v)
+
+
+SEM[DOPS + 'ScalingOperator'] = lambda I, fr, o, v: v_mul(_g(I, fr, o, 'scalar'), v)
+SEM[DOPS + 'MultiplyOperator'] = lambda I, fr, o, v: v_mul(_vec(_g(I, fr, o, 'multiplicand')), v)
+SEM[DOPS + 'ConstantOperator'] = lambda I, fr, o, v: _vec(_g(I, fr, o, 'constant'))
+SEM[DOPS + 'ZeroOperator'] = lambda I, fr, o, v: (VConst(0.0) if not is_field_obj(I, _g(I, fr, o, 'range')) else 0.0)
+
+
+def _sem_inner(I, fr, o, v):
+    vec = _g(I, fr, o, 'vector')
+    return inner(I, fr, _g(I, fr, vec, 'space'), v, value_of(vec))
+
+
+SEM[DOPS + 'InnerProductOperator'] = _sem_inner
+
+
+def _sem_part(part):
+    def f(I, fr, o, v):
+        fld = field_kind_of(I, fr, _g(I, fr, o, 'domain'))
+        if fld != 'complex':
+            return v if part == 'real' else VConst(0.0)
+        return VPw(part, (v,))
+    return f
+
+
+SEM[DOPS + 'RealPart'] = _sem_part('real')
+SEM[DOPS + 'ImagPart'] = _sem_part('imag')
+SEM[DOPS + 'ComplexEmbedding'] = lambda I, fr, o, v: v_mul(_g(I, fr, o, 'scalar'), v)
+
+
+# --------------------------------------------------------------------------
+# abstract inner products in Gram normal form
+
+TESTVARS = ('x', 'y', 'd')
+
+
+def depends_on(v, names):
+    if isinstance(v, VVar):
+        return v.name in names
+    if isinstance(v, VLin):
+        return any(depends_on(t, names) for _, t in v.terms)
+    if isinstance(v, (VPw, VApp)):
+        return any(isinstance(a, V) and depends_on(a, names) for a in v.args)
+    return False
+
+
+def conj_v(v, field):
+    return v if field != 'complex' else VPw('conj', (v,))
+
+
+def adjoint_sym(op):
+    """OpSym of the adjoint of an abstract linear operator symbol (created on demand; (A*)* = A)"""
+    if getattr(op, 'adj', None) is None:
+        a = OpSym(op.name + '*', linear=True)
+        a.adj = op
+        op.adj = a
+        a.dom_field, a.ran_field = getattr(op, 'ran_field', 'real'), getattr(op, 'dom_field', 'real')
+    return op.adj
+
+
+def gram(I, fr, spacekey, field, a, b):
+    """one normalisation step of <a, b> for an atom a: a linear operator application or a pointwise
+    multiplier on the left is moved to the right argument (adjoint law / conjugate-multiplication law)"""
+    if isinstance(a, VApp) and a.op.linear and len(a.args) == 1 and isinstance(a.args[0], V) and depends_on(a.args[0], TESTVARS):
+        adj = adjoint_sym(a.op)
+        return ('relin', spacekey, a.args[0], VApp(adj, (b,), field))
+    if isinstance(a, VPw) and a.fn == 'mul':
+        f0, f1 = a.args
+        d0, d1 = depends_on(f0, TESTVARS), depends_on(f1, TESTVARS)
+        if d0 != d1:
+            mult, rest = (f1, f0) if d0 else (f0, f1)
+            return ('relin', spacekey, rest, core.vmul(conj_v(mult, field), b))
+    return ('atom', spacekey, a, b)
+
+
+def inner(I, fr, space, u, v):
+    """inner product of the space object (field: u * conj(v)) of two values, bilinear expansion over atoms"""
+    if is_field_obj(I, space):
+        vv = v.conjugate() if isinstance(v, (S, C)) else (v.conjugate() if isinstance(v, complex) else v)
+        return u * vv
+    fld = field_kind_of(I, fr, space)
+    key = getattr(space, 'tag', 'S')
+    return _inner(I, fr, key, fld, u if isinstance(u, V) else VConst(u), v if isinstance(v, V) else VConst(v), 0)
+
+
+def _inner(I, fr, key, fld, u, v, depth):
+    if depth > 12:
+        raise Unsupported('inner product normal form does not terminate')
+    low = fr.st.lower
+    acc = None
+    for c, a in low.linform(u):
+        for d, b in low.linform(v):
+            dd = core._sc(d)
+            coef = core._sc(c) * (dd.conjugate() if fld == 'complex' else dd)
+            kind, k2, a2, b2 = gram(I, fr, key, fld, a, b)
+            if kind == 'relin':
+                g = _inner(I, fr, k2, fld, a2, b2, depth + 1)
+            else:
+                # conjugate symmetry: canonical argument order (test-variable dependent argument first)
+                da, db = depends_on(a2, TESTVARS), depends_on(b2, TESTVARS)
+                if (db and not da) or (da == db and repr(a2.key()) > repr(b2.key())):
+                    if db and not da and not isinstance(b2, VVar):
+                        # the right argument may still carry movable operators: normalise <b, a> and conjugate
+                        g = _inner(I, fr, k2, fld, b2, a2, depth + 1)
+                    else:
+                        g = low(VApp(_gsym('G'), (b2, a2), fld))
+                    g = core._sc(g).conjugate() if fld == 'complex' else g
+                else:
+                    g = low(VApp(_gsym('G'), (a2, b2), fld))
+            t = coef * g
+            acc = t if acc is None else acc + t
+    if acc is None:
+        return C(0.0, 0.0) if fld == 'complex' else S.lift(0.0)
+    return acc
+
+
+_GS = {}
+
+
+def _gsym(key):
+    if key not in _GS:
+        _GS[key] = OpSym('G[' + key + ']', linear=False)
+    return _GS[key]
+
+
+# --------------------------------------------------------------------------
+# contracts of Operator.adjoint / Operator.derivative for abstract leaves
+
+def adjoint_contract(I, fr, self):
+    """abstract linear leaf: returns the abstract operator A* (Adj(A, A*) is built into `inner`)"""
+    if not hasattr(self, 'opsym'):
+        raise_op(I, 'OpNotImplementedError', 'adjoint not implemented')
+    if not self.opsym.linear:
+        raise_op(I, 'OpNotImplementedError', 'adjoint not implemented for nonlinear operator')
+    ab = self.absop
+    if ab.adj is None:
+        adj = AbsOp(I, ab.name + '*', ab.ran, ab.dom, True)
+        sym = adjoint_sym(self.opsym)
+        adj.op.opsym = sym
+        adj.adj = ab
+        ab.adj = adj
+    return ab.adj.op
+
+
+def derivative_contract(I, fr, self, point):
+    """Operator.derivative: linear operators are their own derivative; an abstract non-linear leaf has the
+    abstract Frechet derivative dA[p] (a linear operator symbol per semantically distinct point p)"""
+    if I.truth(I._getattr(self, 'is_linear', fr), fr):
+        return self
+    if not hasattr(self, 'opsym'):
+        raise_op(I, 'OpNotImplementedError', 'derivative not implemented')
+    ab = self.absop
+    p = value_of(point)
+    lp = fr.st.lower(p if isinstance(p, V) else VConst(p))
+    for (lq, d) in ab.derivs.setdefault(id(fr.st), []):
+        if type(lq) is type(lp) and fr.st.entails(core.sc_eq(lq, lp)):
+            return d.op
+    d = AbsOp(I, 'd%s[%d]' % (ab.name, len(ab.derivs[id(fr.st)])), ab.dom, ab.ran, True)
+    ab.derivs[id(fr.st)].append((lp, d))
+    d.point = p
+    return d.op
+
+
+def calculus_cuts():
+    return {OP + 'Operator.adjoint': adjoint_contract, OP + 'Operator.derivative': derivative_contract}
